@@ -107,7 +107,7 @@ def run(rep, tier):
     m2d_cases(rep, svh, rng, gates, names, 120 if quick else 4000)
     routing_matrix(rep, rng, gates, 4 if quick else 60, quick)
     streaming_cases(rep, svh, rng, 6 if quick else 80, quick)
-    m2d_cli(rep, svh, rng, gates, names, 6 if quick else 80, quick)
+    m2d_cli(rep, svh, rng, gates, names, 30 if quick else 300, quick)
     svh.close()
     rep.cov['rule'] = ('(a) random annotated circuits (noisy and noiseless, REPEAT, duplicate and far lookbacks, sparse observable ids) x '
                        'shots {1,3,65,130} x W; (b) m2d on random measurement and sweep tables incl. skip_reference_sample and appended '
@@ -191,10 +191,24 @@ def m2d_cases(rep, svh, rng, gates, names, count):
 def m2d_cli(rep, svh, rng, gates, names, count, quick):
     """`stim m2d` (stream_measurements_to_detection_events, batches of 1024 shots) against the in-memory API on the same tables"""
     for _ in range(count):
-        prof = gencirc.Profile(annotations=True, sweep=False, len_range=(8, 24), repeat=True)
-        n, body = gencirc.gen_circuit(rng, gates, prof)
+        use_sweep = rng.random() < 0.35
+        NSW = 3
+        prof = gencirc.Profile(annotations=True, sweep=use_sweep, len_range=(8, 24), repeat=True)
+        n, body = gencirc.gen_circuit(rng, gates, prof, sweep_count=NSW)
         text = stimtext.circuit_text(body)
         flat = stimtext.flatten(body)
+        nsb = max([t.val + 1 for i in flat for t in i.targets if t.kind == 'sweep'] + [0])
+        use_sweep = use_sweep and nsb > 0
+        NSW = nsb
+        # --ran_without_feedback: the data is converted with the feedback-free circuit (tied to the original by C13)
+        nofb = rng.random() < 0.3
+        conv_text = text
+        if nofb:
+            rw = svh.request('rewrite', ['inline_feedback'], text)
+            if not rw or not rw[0].startswith('C ') or rw[0].startswith('C ERR'):
+                nofb = False
+            else:
+                conv_text = rw[0][2:].replace(';', '\n')
         nm = sum(1 for _ in stimtext.to_spec(flat, names, noise=False).meas_instr)
         nd = sum(1 for i in flat if i.name == 'DETECTOR')
         ids = [int(i.args[0]) for i in flat if i.name == 'OBSERVABLE_INCLUDE']
@@ -207,8 +221,11 @@ def m2d_cli(rep, svh, rng, gates, names, count, quick):
         skipref = rng.random() < 0.3
         # in-memory API, in chunks (the API itself is validated against the specification in m2d_cases)
         want = []
+        srows = [[rng.random() < 0.5 for _ in range(NSW)] for _ in range(shots)] if use_sweep else None
         for k in range(0, shots, 500):
-            payload = text + '\n' + '\n'.join('@M ' + m for m in ms[k:k + 500])
+            payload = conv_text + '\n' + '\n'.join('@M ' + m for m in ms[k:k + 500])
+            if use_sweep:
+                payload += '\n' + '\n'.join('@S ' + ''.join('1' if b else '0' for b in r) for r in srows[k:k + 500])
             out = svh.request('m2d', [rng.choice([64, 128, 256]), 1, int(skipref)], payload)
             want += [l[2:] for l in out if l.startswith('R ')]
         cpath = os.path.join(core.BUILD, 'c04_circuit_%d.stim' % os.getpid())
@@ -220,6 +237,15 @@ def m2d_cli(rep, svh, rng, gates, names, count, quick):
                 args = ['m2d', '--in_format', fin, '--out_format', fout, '--circuit', cpath]
                 if skipref:
                     args.append('--skip_reference_sample')
+                if nofb:
+                    args.append('--ran_without_feedback')
+                stmp = None
+                if use_sweep:
+                    stmp = tempfile.NamedTemporaryFile(delete=False, dir=core.BUILD)
+                    sfmt = rng.choice(['01', 'b8', 'hits'])
+                    stmp.write(docformats.save(sfmt, srows))
+                    stmp.close()
+                    args += ['--sweep', stmp.name, '--sweep_format', sfmt]
                 tmp = None
                 if variant == 'append':
                     args.append('--append_observables')
@@ -229,9 +255,11 @@ def m2d_cli(rep, svh, rng, gates, names, count, quick):
                     ofmt = rng.choice(['01', 'b8', 'hits'])
                     args += ['--obs_out', tmp.name, '--obs_out_format', ofmt]
                 rc, so, se = core.run_stim(args, data)
-                rep.count(('c04-m2dcli', text, shots, fin, fout, variant, skipref), nontrivial=shots > 1024)
+                if stmp:
+                    os.unlink(stmp.name)
+                rep.count(('c04-m2dcli', text, shots, fin, fout, variant, skipref, nofb, use_sweep), nontrivial=shots > 1024)
                 cell = {'command': 'stim m2d --in_format %s --out_format %s %s%s' % (fin, fout, {'append': '--append_observables', 'obs_out': '--obs_out <file>', 'plain': ''}[variant],
-                                                                                     ' --skip_reference_sample' if skipref else ''), 'shots_gt_1024': shots > 1024}
+                                                                                     (' --skip_reference_sample' if skipref else '') + (' --ran_without_feedback' if nofb else '') + (' --sweep <file>' if use_sweep else '')), 'shots_gt_1024': shots > 1024}
                 if rc != 0:
                     if tmp:
                         os.unlink(tmp.name)
